@@ -439,6 +439,10 @@ func init() {
 			P.ScalarMult(&n, &P)
 		case 2:
 			P.Add(&P, &P)
+		case 6:
+			// y = 0: -x^2 = 1, the point (i, 0) of order 4, whose x lies in i*Fp (the square-root
+			// routine takes its rarely used branch for such x); derived by hand, not by the library
+			return make([]byte, 32)
 		}
 		P.Marshal(&out)
 		return out[:]
@@ -478,9 +482,9 @@ func init() {
 			return Result{Accepted: true, Reenc: out[:], Member: P.IsOnCurve()}
 		}})
 	Register(&Entry{Name: "curve4q.Shared(public)", Membership: true, FixedLen: 32, Cost: 8, Seeds: 8, Aware: fourqAware,
-		Valid: func(seed uint64) []byte { // the identity is (rightly) refused as a DH public key
-			if seed%8 == 4 || seed%8 == 5 {
-				seed += 2
+		Valid: func(seed uint64) []byte { // the identity and points of small order are (rightly) refused as DH public keys
+			if m := seed % 8; m == 4 || m == 5 || m == 6 {
+				seed += 3
 			}
 			return fourqValid(seed)
 		},
